@@ -92,3 +92,13 @@ OBLIGATIONS.append({"name": "c15.u.base642bin.strict", "props": ["C15", "C12"], 
      "functions": ["sodium_base642bin", "b64_char_to_byte", "b64_urlsafe_char_to_byte"], "assumes": ["errno modelled as a plain global"],
      "what": "sodium_base642bin, strict mode (unpadded variants, no ignore set, no end pointer), EVERY text: success implies alphabet characters only, length != 1 mod 4, bin_len = floor(6 len / 8), zero trailing bits, every byte assembled from its digits per RFC 4648 (constant-time table look-ups proved equal to the alphabets)",
      "bound": "values: text <= 4096 bytes, capacity <= 4096; every loop iteration covered by the invariant"})
+
+import os as _os, sys as _sys
+_sys.path.insert(0, _os.path.join(_os.path.dirname(_os.path.abspath(__file__)), ".."))
+from vlib import b64spec as _b64spec
+OBLIGATIONS.append({"name": "c15.u.bin2base64", "props": ["C15", "C12"], "kind": "U", "tier": "quick", "src": "harness/codecs_du.c", "include": ["contracts/codecs_u.h", "contracts/codecs_enc.h"], "entry": "hu_bin2base64",
+     "mode": "dfcc", "probe": False, "min_props": 30, "solver": "kissat", "timeout": 1500, "cbmc": ["--unwind", "24", "--object-bits", "12"],
+     "dfcc": {"enforce": ["sodium_bin2base64/sodium_bin2base64_spec"], "replace": [], "loopspec": _b64spec.loopspec()},
+     "functions": ["sodium_bin2base64", "b64_byte_to_char", "b64_byte_to_urlsafe_char"], "assumes": [],
+     "what": "sodium_bin2base64, EVERY input up to 3072 bytes, all four variants, every sufficient capacity: character k is the RFC 4648 character of the k-th 6-bit group (zero padded), '=' padding up to the padded length, zero fill up to b64_maxlen, buffer returned (constant-time table functions thereby proved equal to the alphabets on the encoding path)",
+     "bound": "values: input <= 3072 bytes, capacity <= 4200; every loop iteration covered by the invariants"})
